@@ -219,8 +219,9 @@ example (m : Mol) : (Read.frag (exFrag.rename swapAB)).map (queryMatches · m) =
 /-! ## The cap of 10 000 candidates (F30) -/
 
 /-- **T1 with the cap, full statement**: the capped matcher returns exactly the embeddings.  False of
-the code as it is (F30): beyond 10 000 candidates embeddings are omitted; the failing input on the
-real code is `corpus/C08/F30.json` (10 728 embeddings, 10 000 returned). -/
+the code as it is (F30): beyond 10 000 candidates embeddings are omitted — refuted in
+`PGA/Props/C08Cap.lean` (`C08_capped_iff_full_fails`); the failing input on the real code is
+`corpus/C08/F30.json` (10 728 embeddings, 10 000 returned). -/
 def C08_capped_iff_full : Prop :=
   ∀ (q : Query) (m : Mol) (f : List Nat), q.wf = true → m.wf = true → NoStar q = true →
     (f ∈ queryMatchesCapped q m ↔ Embeds q m f)
